@@ -160,7 +160,12 @@ def scenario(s, w):
     ex = [f"e{k}" for k in range(s["extra"])]
     for d in ex:
         dims[d] = w.size(f"n_{d}", 1)
-    ds = w.dataset(dims, coords={d: (d,) for d in dims} if s["coords"] else {})
+    cdefs = {d: (d,) for d in dims} if s["coords"] else {}
+    if isinstance(s["coords"], list):
+        cdefs = {d: (d,) for d in s["coords"]}
+    for cname, cd in (s.get("other_coords") or {}).items():
+        cdefs[cname] = tuple(cd)
+    ds = w.dataset(dims, coords=cdefs)
 
     def fills(v, key):
         if v is None:
@@ -178,8 +183,12 @@ def scenario(s, w):
     adims = [layout[a][s["arr"][a]] for a in axes] + ex
     if s["order"]:
         adims = [adims[k] for k in s["order"]]
-    da = w.array("D", adims, ds, with_coords=s["coords"])
+    da = w.array("D", adims, ds, with_coords=s.get("input_coords", bool(s["coords"])))
     ckw = {}
+    if s.get("keep_coords") is not None:
+        ckw["keep_coords"] = s["keep_coords"]
+    if s.get("metric_weighted") is not None:
+        ckw["metric_weighted"] = s["metric_weighted"]
     if s["to"] is not None:
         ckw["to"] = dict(s["to"]) if isinstance(s["to"], dict) else s["to"]
     if s["cboundary"] is not None:
@@ -188,7 +197,7 @@ def scenario(s, w):
         ckw["fill_value"] = cfill
     axis = list(s["axis"]) if isinstance(s["axis"], list) else s["axis"]
     out = getattr(g, s["op"])(da, axis, **ckw)
-    return dict(out=out, da=da, g=g, layout=layout, ns=ns, gfill=gfill, cfill=cfill, adims=adims)
+    return dict(out=out, da=da, g=g, ds=ds, layout=layout, ns=ns, gfill=gfill, cfill=cfill, adims=adims, dims=dims, cdefs=cdefs)
 
 
 def op_spec(s, r, canary=None):
@@ -428,6 +437,20 @@ def replay(ob):
 
 
 def replay_scenario(s, model, scen, specf, what):
+    """replay with the data of the solver's model; if that input does not exhibit the failure
+    natively (uninterpreted symbols of the model need not be realisable), retry the same sizes with
+    an injective index encoding as data"""
+    r = _replay_scenario(s, model, scen, specf, what)
+    if not r.get("confirmed") and (model or {}).get("__funcs__"):
+        m2 = {k: v for k, v in model.items() if k != "__funcs__"}
+        r2 = _replay_scenario(s, m2, scen, specf, what)
+        if r2.get("confirmed"):
+            r2["text"] = "(model data did not reproduce; same sizes with index-encoded data:)\n" + r2["text"]
+            return r2
+    return r
+
+
+def _replay_scenario(s, model, scen, specf, what):
     mods = util.xgcm_modules()
     m = dict(model)
     for k in list(m):
@@ -444,7 +467,8 @@ def replay_scenario(s, model, scen, specf, what):
         text.append(traceback.format_exc(limit=-3))
         return {"confirmed": True, "text": "\n".join(text)}
     text.append(f"native parameters {nw.consts}; structure {s['sid']}")
-    symx.CUR = symx.Ctx([])
+    tctx = symx.Ctx([])
+    symx.CUR = tctx
     try:
         sw = SymWorld()
         with util.patched(*util.std_patches(mods)):
@@ -465,7 +489,7 @@ def replay_scenario(s, model, scen, specf, what):
         if d in out.sizes and out.sizes[d] != want:
             bad.append(f"size of {d}: got {out.sizes[d]} expected {want}")
     if not bad:
-        bad = native_compare(sw, nw, sp["cells"], sp["q"], out)
+        bad = native_compare(sw, nw, sp["cells"], sp["q"], out, ghost=tctx.ghost)
     if bad:
         text.append("REAL CODE DISAGREES WITH THE SPECIFICATION:")
         text += bad[:10]
